@@ -34,11 +34,12 @@ package main
 
 import (
 	"context"
+	"crypto/sha256"
+	"encoding/hex"
 	"encoding/json"
 	"fmt"
 	"net/http"
 	"os"
-	"runtime/debug"
 	"runtime/pprof"
 	"sort"
 	"strconv"
@@ -545,7 +546,7 @@ func newCluster() *cluster {
 			Collector: func(n *pipeline.Node) collect.Collector {
 				c.rc[i] = nodecoll.New(n)
 				c.cbIdx[i] = len(n.Cfg.Callbacks) - 1 // registered last, by the collector's start
-				c.rc[i].OutgoingCap = 16 // >= traces decided per tick (<= 2 per scenario)
+				c.rc[i].OutgoingCap = 16              // >= traces decided per tick (<= 2 per scenario)
 				c.cw[i] = &collWrap{real: c.rc[i]}
 				return c.cw[i]
 			}})
@@ -704,7 +705,7 @@ type run struct {
 }
 
 func (x *run) fail(sig, format string, a ...any) *seqx.Failure {
-	return &seqx.Failure{Sig: x.sc.ruleClass() + "|" + sig, What: fmt.Sprintf(format, a...)}
+	return &seqx.Failure{Sig: sig, What: fmt.Sprintf("[SamplingRate %d] ", x.sc.Rate) + fmt.Sprintf(format, a...)}
 }
 
 func (sc *scenarioDef) ruleClass() string {
@@ -1096,6 +1097,10 @@ func (sc *scenarioDef) exec(h []event, verbose bool) (string, string, *seqx.Fail
 		}
 	}
 	canon := x.canon()
+	if canon != "" && !verbose {
+		sum := sha256.Sum256([]byte(canon)) // the key is ~1.5 kB of text; a million states are kept
+		canon = hex.EncodeToString(sum[:20])
+	}
 	if f := x.settle(len(h)); f != nil {
 		return "", "", f
 	}
@@ -1290,6 +1295,11 @@ func buildScenarios(r *ev.Run, tab *ruleTable) []*scenarioDef {
 	for o := 0; o < 2; o++ {
 		normKeepOnDropDS[o] = normalVerdicts(byOwner[o][:64], o, "ds-drop-"+suffix[o])
 	}
+	for id, k := range normalVerdicts(byOwner[1][:64], 1, "ds-drop-a") { // used by the shared-dataset scenario
+		if k != normKeepOnDropDS[1][id] {
+			ev.Harness("the drop samplers of ds-drop-a and ds-drop-b disagree on trace %s", id)
+		}
+	}
 	for o := 0; o < 2; o++ {
 		for id, k := range normalVerdicts(byOwner[o][:64], o, "ds-keep-"+suffix[o]) {
 			if !k {
@@ -1308,26 +1318,31 @@ func buildScenarios(r *ev.Run, tab *ruleTable) []*scenarioDef {
 		return ""
 	}
 	keys := [2]string{strings.Repeat("a", 31) + "1", strings.Repeat("b", 31) + "2"}
-	mk := func(name string, rate uint64, kA, kB bool) *scenarioDef {
+	mk := func(name string, rate uint64, kA, kB, shared bool) *scenarioDef {
 		sc := &scenarioDef{Name: name, Rate: rate}
 		for o, k2 := range []bool{kA, kB} {
 			id := pick(o, k2)
 			rk := tab.keep[rate][id]
 			// the normal sampler is the OPPOSITE of the stress verdict, so that a forgotten stress decision
 			// changes what Honeycomb receives
-			ds := "ds-drop-" + suffix[o]
-			if !rk {
-				ds = "ds-keep-" + suffix[o]
+			ko := o
+			if shared {
+				ko = 0 // both traces use one API key and one dataset: their spans share transmission batches
 			}
-			sc.Traces = append(sc.Traces, traceDef{ID: id, Owner: o, Key: keys[o], Dataset: ds, RuleKeep: rk, NormKeep: !rk})
+			ds := "ds-drop-" + suffix[ko]
+			if !rk {
+				ds = "ds-keep-" + suffix[ko]
+			}
+			sc.Traces = append(sc.Traces, traceDef{ID: id, Owner: o, Key: keys[ko], Dataset: ds, RuleKeep: rk, NormKeep: !rk})
 		}
 		return sc
 	}
 	scs := []*scenarioDef{
-		mk("rate2-aKeep-bDrop", 2, true, false),
-		mk("rate2-aDrop-bKeep", 2, false, true),
-		mk("rate1-keeps-all", 1, false, false), // IDs that rate 2 would drop
-		mk("rate2^40-drops-all", bigRate, true, true),
+		mk("rate2-aKeep-bDrop", 2, true, false, false),
+		mk("rate2-aDrop-bKeep", 2, false, true, false),
+		mk("rate1-keeps-all", 1, false, false, false), // IDs that rate 2 would drop
+		mk("rate2^40-drops-all", bigRate, true, true, false),
+		mk("rate1-shared-key-and-dataset", 1, false, false, true),
 	}
 	for _, sc := range scs {
 		r.Sample(map[string]any{"scenario": sc.Name, "rate": sc.Rate, "traces": sc.Traces})
@@ -1358,7 +1373,6 @@ func note(class, val string) {
 func main() {
 	r := ev.New("C16", "model_checking")
 	R = r
-	debug.SetGCPercent(800) // thousands of short-lived collectors: fewer collections, far fewer page faults
 	if p := os.Getenv("C16_CPUPROF"); p != "" {
 		if f, err := os.Create(p); err == nil {
 			pprof.StartCPUProfile(f)
@@ -1406,7 +1420,7 @@ func main() {
 		if si >= 2 {
 			d = depth - 1 // the uniform-verdict scenarios are explored one level less deep
 		}
-		sc.Roots = r.Thorough() && si < 2
+		sc.Roots = r.Thorough() && si == 0 // root spans double the span alphabet: first scenario only
 		seqx.Explore(r, seqx.Scenario[event]{
 			Name:     sc.Name,
 			Enabled:  sc.enabled,
@@ -1425,7 +1439,8 @@ func main() {
 	}
 	r.Set("traces_validated_against_impl", r.Count("transitions"))
 	r.Set("bounds", map[string]any{"depth": depth, "scenarios": len(scs), "rates": rates, "rule_ids": len(tab.ids),
-		"alphabet": "stress(A|B,toggle) span(t0|t1, via A|B[, root in thorough]) flush(A|B . up|peer, when possibly non-empty) tick(when something is buffered); every execution ends with a settle phase"})
+		"depth_of_uniform_and_shared_scenarios": depth - 1,
+		"alphabet":                              "stress(A|B,toggle) span(t0|t1, via A|B; thorough: also root spans in the first scenario) flush(A|B . up|peer, when possibly non-empty) tick(when something is buffered); every execution ends with a settle phase"})
 	r.Assume("the stress rule is treated as an uninterpreted pure function of (trace ID, SamplingRate): the check demands equality across nodes / time, rate<=1 keeps all, nestedness in the rate, and obedience to that table — not a particular hash")
 	r.Assume("weakest reading of 'remembered': a stress decision binds later spans on the node that took it and handles them (relief still active there, or the node owns the trace); a late span of a non-owned trace is forwarded to the owner after relief ended and is decided there")
 	r.Assume("a trace that was already buffered (first seen before relief) when a span of it arrives during relief is outside the statement: its spans are unconstrained (class free) apart from W1-W4")
